@@ -41,13 +41,13 @@ var fileChecks = map[string][]string{
 	"crypto/packet.go":                             {"C06"},
 	"crypto/chacha20poly1305/chacha20_poly1305.go": {"C06", "C05"},
 	"crypto/hkdf/hkdf.go":                          {"C06", "C04"},
-	"crypto/ed25519.go":                            {"C04", "C03", "C02"},
+	"crypto/ed25519.go":                            {"C13", "C04", "C03", "C02"},
 	"crypto/curve25519/curve25519.go":              {"C04", "C03"},
 	"hap/http/characteristics.go":                  {"C09", "C11", "C12", "C10", "C01", "C13"},
-	"hap/http/server.go":                           {"C09", "C01", "C13"},
+	"hap/http/server.go":                           {"C09", "C01", "C13", "C10"},
 	"hap/http/accessories.go":                      {"C09", "C01", "C13"},
 	"hap/http/json.go":                             {"C09"},
-	"hap/chunked_writer.go":                        {"C09"},
+	"hap/chunked_writer.go":                        {"C09", "C14"},
 	"hap/notification.go":                          {"C10"},
 	"hap/endpoint/pair-setup.go":                   {"C02", "C04", "C13", "C20"},
 	"hap/endpoint/pair-verify.go":                  {"C03", "C04", "C13", "C01"},
@@ -65,7 +65,7 @@ var fileChecks = map[string][]string{
 	"util/file_storage.go":                         {"C18", "C19"},
 	"util/xhmurl.go":                               {"C20"},
 	"util/mac.go":                                  {"C20"},
-	"db/database.go":                               {"C18", "C19", "C20"},
+	"db/database.go":                               {"C18", "C19", "C20", "C03"},
 	"config.go":                                    {"C20", "C19"},
 	"ip_transport.go":                              {"C10", "C20", "C01"},
 	"password.go":                                  {"C20"},
@@ -75,9 +75,9 @@ var fileChecks = map[string][]string{
 	"characteristic/characteristic.go":             {"C12", "C11", "C09", "C10"},
 	"characteristic/int.go":                        {"C12", "C09", "C15"},
 	"characteristic/float.go":                      {"C12", "C09", "C15"},
-	"characteristic/string.go":                     {"C12", "C09"},
-	"characteristic/bytes.go":                      {"C12", "C09"},
-	"characteristic/bool.go":                       {"C12", "C09"},
+	"characteristic/string.go":                     {"C15", "C12", "C09"},
+	"characteristic/bytes.go":                      {"C15", "C12", "C09"},
+	"characteristic/bool.go":                       {"C15", "C12", "C09"},
 	"tlv8/encoder.go":                              {"C17"},
 	"tlv8/decoder.go":                              {"C17"},
 	"tlv8/reader.go":                               {"C17"},
@@ -284,6 +284,7 @@ func main() {
 	seed := flag.Int64("seed", 1, "seed for -limit sampling")
 	ops := flag.String("ops", "", "only these operator classes (comma separated prefixes)")
 	list := flag.Bool("list", false, "only list the sites")
+	only := flag.String("only", "", "file with mutant ids (one per line, first field): run exactly these again, whatever the result file says")
 	flag.Parse()
 
 	var files []string
@@ -308,6 +309,20 @@ func main() {
 		}
 	}
 
+	var onlyIDs map[string]bool
+	if *only != "" {
+		onlyIDs = map[string]bool{}
+		b, err := os.ReadFile(*only)
+		if err != nil {
+			panic(err)
+		}
+		for _, l := range strings.Split(string(b), "\n") {
+			if f := strings.Fields(l); len(f) > 0 {
+				onlyIDs[f[0]] = true
+			}
+		}
+		done = map[string]bool{}
+	}
 	var jobs []job
 	rnd := rand.New(rand.NewSource(*seed))
 	for _, rel := range files {
@@ -342,7 +357,7 @@ func main() {
 		}
 		for _, i := range sel {
 			id := fmt.Sprintf("%s#%d:%s@%d", rel, i, sites[i].Op, sites[i].Line)
-			if done[id] {
+			if done[id] || (onlyIDs != nil && !onlyIDs[id]) {
 				continue
 			}
 			jobs = append(jobs, job{rel: rel, idx: i, id: id, site: *sites[i]})
